@@ -16,7 +16,11 @@ ORDER_PRESERVING_ITER = {'gambit.util.progress.iter_progress'}
 
 
 def check(ctx):
-    rep, m = ctx.rep, ctx.model
+    declare_rules(ctx.rep)
+    core(ctx)
+
+
+def declare_rules(rep):
     rep.rule('S1', 'result slot = submit-time index: map[future] = enumerate index at the submit site; store sigs[map[f]] = f.result(); pre-sized list; no positional collection')
     rep.rule('S2', 'every future is awaited via .result() in a loop over as_completed(<the same map>); no enclosing handler')
     rep.rule('S3', 'sequential branch appends calc_file_signature(kspec, file) in iteration order of files')
@@ -25,6 +29,10 @@ def check(ctx):
     rep.rule('S6', 'result is SignatureList(sigs, kspec)')
     rep.trusted += ['concurrent.futures: Future.result() re-raises the worker exception; as_completed yields each given future exactly once',
                     'iter_progress / ProgressIterator yield the wrapped items unchanged and in order (checked under C08-A7)']
+
+
+def core(ctx):
+    rep, m = ctx.rep, ctx.model
     fi = m.func(FN)
     rep.functions.add(fi.qualname)
     fn = fi.node
